@@ -5,6 +5,7 @@ import (
 	"errors"
 	"fmt"
 	"io"
+	"os"
 	os2 "os"
 	"reflect"
 	"sort"
@@ -28,7 +29,7 @@ func init() {
 			return 500
 		},
 		Batch:  func(t string) int { return 25 },
-		Floors: []string{"hist_fresh_twice", "hist_reset_after_close", "hist_reset_after_abandon", "hist_reset_after_failed_sink", "hist_other_goroutine", "hist_buffer_reuse", "hist_sorting_writer_reuse", "xvariant_digests_joined"},
+		Floors: []string{"hist_fresh_twice", "hist_reset_after_close", "hist_reset_after_abandon", "hist_reset_after_failed_sink", "hist_other_goroutine", "hist_buffer_reuse", "hist_sorting_writer_reuse", "xvariant_digests_joined", "stride_multiple_page_counts"},
 		Rule: "case = (catalogue type without maps, rows, option combination); the same (rows, options) are written by a fresh writer twice, after unrelated writes, by a writer reused through Reset after a completed / abandoned / failed " +
 			"previous file with different content, from another goroutine, through reused GenericBuffer/RowBuffer/SortingWriter; all digests must be equal, and the fresh digest is joined across the std, purego and noavx builds. " +
 			"Distinct = descriptor hash; non-trivial = >= 1 row",
@@ -87,6 +88,16 @@ func runC17(c *Ctx) {
 	os := genOptions(r, optLimits{Leaves: leafPaths(schema), NoFilePool: true})
 	defer os.Close()
 	ops := genWriteHist(r, n)
+	if c.Case%10 == 7 {
+		// one value per page and as many pages per chunk as the vector kernels over page bounds
+		// step through in whole strides (7 and 15 pairs per 8- and 16-lane load: F46)
+		n = gen.Pick(r, []int{56, 112, 168, 240, 280, 480})
+		rows = genRows(r, te, n, genOpts{NoHuge: true})
+		os.Opts = append(os.Opts, parquet.PageBufferSize(1), parquet.MaxRowsPerRowGroup(1<<40))
+		os.Desc = append(os.Desc, "one-value-pages")
+		ops = []wop{{Lo: 0, Hi: n}}
+		c.Obs("stride_multiple_page_counts", 1)
+	}
 	c.D("type", te.Name)
 	c.D("rows", n)
 	c.D("other_rows", other.Len())
@@ -123,6 +134,7 @@ func runC17(c *Ctx) {
 		return
 	}
 	c.Digest("fresh", ref)
+	c17Dump(ref)
 	if d := os2.Getenv("VERIF_DUMP_DIR"); d != "" {
 		os2.WriteFile(d+"/fresh-"+c.Variant+".parquet", ref, 0o644)
 	}
@@ -326,4 +338,11 @@ func runC17(c *Ctx) {
 	})
 	_ = io.EOF
 	_ = sort.Ints
+}
+
+// c17Dump writes the fresh file to $VERIF_DUMP (debugging aid for cross-variant differences).
+func c17Dump(b []byte) {
+	if d := os.Getenv("VERIF_DUMP"); d != "" {
+		os.WriteFile(d, b, 0o644)
+	}
 }
